@@ -380,9 +380,7 @@ def run_minmax(case, tape):
                     if r == root:
                         if got != want:
                             raise OracleFail('wrong-reduction', dict(call=call, got=got, want=want))
-                    elif got is not None and got != want:
-                        # other ranks may get nothing (reduce) or the same result (allreduce), never another value
-                        raise OracleFail('wrong-reduction', dict(call=call, rank=r, why='non-root got a different value', got=got))
+                    # (what the other ranks get back is not constrained by the property)
             else:
                 got = results[root][ci][1]
                 if got is None:
@@ -390,11 +388,9 @@ def run_minmax(case, tape):
                 starts, mpi_data, sl = got
                 sel = {int(k): (range(v, v + 1) if isinstance(v, int) else range(v[0], v[1]))
                        for k, v in call['sel'].items()}
-                pos = 0
+                chunks = []
                 for r, res in enumerate(results):
                     order, st, en, coords = res[ci][0]
-                    if list(mpi_data[r]) != list(coords):
-                        probes_extra['gathered_coordinates_differ_from_layout_ranks'] = 1    # informational only
                     slices = []
                     empty = False
                     for i, d in enumerate(order):
@@ -404,15 +400,17 @@ def run_minmax(case, tape):
                         if hi <= lo:
                             empty = True
                         slices.append(slice(lo, hi))
-                    chunk = np.zeros(0) if empty else Gr.transpose(order)[tuple(slices)].ravel()
-                    if starts[r] != pos:
-                        raise OracleFail('wrong-block', dict(call=call, rank=r, why='start offsets', got=starts, want_at=pos))
-                    g = sl[pos:pos + chunk.size]
-                    if g.shape != chunk.shape or not (g == chunk).all():
-                        raise OracleFail('wrong-block', dict(call=call, rank=r, why='gathered data differ'))
-                    pos += chunk.size
-                if pos != sl.size:
-                    raise OracleFail('wrong-block', dict(call=call, why='total size', got=int(sl.size), want=pos))
+                    chunks.append(np.zeros(0) if empty else Gr.transpose(order)[tuple(slices)].ravel())
+                    if r < len(mpi_data) and list(mpi_data[r]) != list(coords):
+                        probes_extra['gathered_coordinates_differ_from_layout_ranks'] = 1    # informational only
+                want_all = np.concatenate(chunks) if chunks else np.zeros(0)
+                # the packing of the gathered buffer is the plotting helper's business: the drawing rank must hold
+                # exactly the selected values (every value of the global array is unique), each once
+                if sl.size != want_all.size or not np.array_equal(np.sort(np.asarray(sl)), np.sort(want_all)):
+                    raise OracleFail('wrong-block', dict(call=call, why='gathered values differ from the selected part of the global field',
+                                                         got=int(sl.size), want=int(want_all.size)))
+                if [int(x) for x in starts] == [int(x) for x in np.concatenate([[0], np.cumsum([c.size for c in chunks])[:-1]])]:
+                    probes_extra['gathered_in_rank_order'] = 1
         probes = dict(probes_extra)
         if case.get('mgr') == 'swapper':
             probes['minmax_on_swapper_grid'] = 1
@@ -463,7 +461,7 @@ def run_setup(case, tape):
         if len(folders) != 1:
             raise OracleFail('setupSave-disagree', dict(folders=sorted(map(str, folders))))
         f = folders.pop()
-        if not (f and os.path.isdir(f) and any(x.endswith('.json') for x in os.listdir(f))):
+        if not (f and os.path.isdir(f) and os.listdir(f)):
             raise OracleFail('setupSave-missing', dict(folder=f))
         for r, res in enumerate(results):
             if case['plot'] and r == case['draw']:
@@ -545,10 +543,14 @@ def run_hashseed(case, tape):
             env = dict(os.environ)
             env['PYTHONHASHSEED'] = str(hs)
             env['VERIF_NO_EVIDENCE'] = '1'
-            p = subprocess.run([sys.executable, '-W', 'ignore', os.path.join(VERIF, 'sim', 'hashchild.py')],
-                               input=json.dumps(sub), capture_output=True, text=True, env=env, timeout=300)
+            from harness import HarnessProblem
+            try:
+                p = subprocess.run([sys.executable, '-W', 'ignore', os.path.join(VERIF, 'sim', 'hashchild.py')],
+                                   input=json.dumps(sub), capture_output=True, text=True, env=env, timeout=300)
+            except subprocess.TimeoutExpired:
+                raise HarnessProblem('hash-seed child interpreter timed out')
             if p.returncode != 0:
-                raise RuntimeError('hashseed child failed: ' + p.stderr[-800:])
+                raise HarnessProblem('hash-seed child interpreter failed: ' + p.stderr[-800:])
             outs.append(json.loads(p.stdout.strip().splitlines()[-1]))
         return outs
 
@@ -558,6 +560,9 @@ def run_hashseed(case, tape):
             if not all(o['status'] == 'skip' for o in outs):
                 raise OracleFail('hashseed-dependent', dict(outs=outs))
             raise Skip('layout set refused')
+        if any(o['status'] == 'harness' for o in outs):
+            from harness import HarnessProblem
+            raise HarnessProblem('hash-seed child: %r' % [o for o in outs if o['status'] == 'harness'][:1])
         bad = [o for o in outs if o['status'] != 'ok']
         if bad:
             raise OracleFail('hashseed-run-failed', dict(outs=outs))
